@@ -2,6 +2,8 @@
 # seedfull.sh [ids...] : apply each kept seeded change to /repo itself, run the FULL quick check of its property (obligations + correspondence),
 # undo the change straight afterwards.  Nothing else may use /repo while this runs.
 cd /verif
+# evidence of runs on a changed tree goes to a scratch directory: /verif/evidence only ever describes the unchanged tree
+export VERIF_EVIDENCE_DIR=/dev/shm/seedfull_evidence_$$
 ids=${@:-$(ls seeded)}
 for id in $ids; do
   pid=${id%%-*}
@@ -18,5 +20,6 @@ for id in $ids; do
   br=$(echo "$out" | grep "BROKEN OBLIGATION" | head -1 | cut -c1-220)
   echo "$id | $ob | violation_lines=$vio no_failing_input=$nf | $br"
 done
+rm -rf $VERIF_EVIDENCE_DIR
 # leave Gen/ consistent with the unchanged tree again
 PYTHONPATH=/verif:/repo /venv/bin/python -W ignore -c "from vlib import core; core.Ctx('C10','quick',1).regen()" > /dev/null 2>&1
